@@ -4,7 +4,9 @@
 //! caller saw and, from the mock's trace, the paging_state of every QUERY/EXECUTE frame of the
 //! statement together with the number of Rows pages the mock had served before it arrived.
 //!
-//! case : <kind F|S|J|D|T> <mode s|c> <api q|e|E> <cons full|slowMS|jit|dropN> <nodes> <policy x|di|dn|f> <script>
+//! case : <kind F|S|J|D|U|P|T|E> <mode s|c> <api q|e|E> <cons full|slowMS|jit|dropN|st<state>> <nodes> <policy x|xd|di|dn|f> <script>
+//!   kinds: F full read, S slow consumer, J every Pending poll cancelled, D early drop, U UNPREPARED on a later
+//!          page, P single page with caller state, T client timeout (4 s), E forced early timeout (400 ms vs 2 s)
 //!   mode s : Session::query_iter (api q) / Session::execute_iter (api e; E = with cached result metadata)
 //!   mode c : Connection::execute_iter on a bare connection (hook scylla::client::verif_pager), policy f
 //!   script : pages joined by ';' ; page = <faults>/<resp>
@@ -17,7 +19,8 @@
 //!              rows = '-' | hex(.hex)*   state = N (no more pages) | '-' (empty) | hexbytes
 //!   cons st<state> (kind P): not a pager -- one page through query_single_page / execute_single_page
 //!          resumed with that caller-supplied paging state; observation `p<rows>:<next state>` | `e<code>`
-//!   policy x : scripted retry policy (decision carried in the error message);
+//!   policy x : scripted retry policy (decision carried in the error message; a broken connection is retried on
+//!          the next target); xd : the same, but a broken connection is not retried;
 //!          di/dn : DefaultRetryPolicy, statement idempotent / not (the generator only emits
 //!          faults whose decision under that policy is the one written in the script)
 //! observation : <items> <keys>
@@ -584,10 +587,13 @@ async fn run_case(env: &mut Env, c: &Case) -> String {
         // before the frame it queued last has reached the mock.  Wait until the mock has seen
         // nothing new from this statement for a while.  An early snapshot only makes the request list shorter,
         // which the acceptor allows; it never makes a correct run look wrong.
+        // timeout cases: the frame queued last must have reached the mock before the trace is
+        // read, so the quiet window is long (300 ms without a new request, at most 3 s)
+        let (quiet, max_ms) = if c.has_timeout() { (60, 3000) } else { (4, 400) };
         let t0 = Instant::now();
         let mut last = usize::MAX;
         let mut stable = 0;
-        while t0.elapsed() < Duration::from_millis(400) && stable < 4 {
+        while t0.elapsed() < Duration::from_millis(max_ms) && stable < quiet {
             tokio::time::sleep(Duration::from_millis(5)).await;
             let n = env.cluster.script_len(NodeSel::Any, text.as_str());
             if n == last {
@@ -856,7 +862,15 @@ fn small_exhaustive() -> Vec<Case> {
 fn timeout_cases(r: &mut Rng, n: usize) -> Vec<Case> {
     (0..n)
         .map(|i| {
-            let mode = if i % 2 == 1 { 'c' } else { 's' };
+            // modes alternate in pairs so that every consumer kind (i % 4) meets both modes
+            let mode = if i % 4 == 3 {
+                // the dropping case alternates between a Session pager and the connection pager
+                if (i / 4) % 2 == 0 { 's' } else { 'c' }
+            } else if i % 2 == 1 {
+                'c'
+            } else {
+                's'
+            };
             let nodes = r.range(2, 4) as usize;
             let npages = r.range(1, 4) as usize;
             let k = r.below(npages as u64) as usize;
@@ -868,11 +882,14 @@ fn timeout_cases(r: &mut Rng, n: usize) -> Vec<Case> {
                     let mut fs = vec![];
                     if p == k {
                         // the timeout covers all attempts of the page: also after a retry on the
-                        // same or on the next target
-                        match r.below(3) {
-                            0 => fs.push(Fault::Err(0x1001, 's')),
-                            1 if mode == 's' => fs.push(Fault::Err(0x1002, 'n')),
-                            _ => {}
+                        // same or on the next target (Session pagers only: the connection pager
+                        // never retries, an error before the T would end the read)
+                        if mode == 's' {
+                            match r.below(3) {
+                                0 => fs.push(Fault::Err(0x1001, 's')),
+                                1 => fs.push(Fault::Err(0x1002, 'n')),
+                                _ => {}
+                            }
                         }
                         fs.push(Fault::Timeout);
                     }
@@ -897,14 +914,22 @@ fn timeout_cases(r: &mut Rng, n: usize) -> Vec<Case> {
 fn forced_early_timeout_cases(r: &mut Rng, n: usize) -> Vec<Case> {
     (0..n)
         .map(|i| {
-            let mode = if i % 2 == 1 { 'c' } else { 's' };
+            // i % 3 == 2: a Session pager whose caller drops the stream after the early timeout
+            // surfaced (delay on a page >= 1, so that the constructor succeeds): the observation
+            // can only be explained by accept_drop_timeout
+            let dropping = i % 3 == 2;
+            let mode = if !dropping && i % 2 == 1 { 'c' } else { 's' };
             let npages = r.range(2, 4) as usize;
             let kt = r.range(1, npages as u64 - 1) as usize; // page of the scripted T
-            let kd = r.below(kt as u64 + 1) as usize; // page of the long delay (<= kt)
+            let kd = if dropping { r.range(1, kt as u64) as usize } else { r.below(kt as u64 + 1) as usize }; // page of the long delay (<= kt)
             let mut next = 0xe000u32 + (i as u32) * 64;
+            let mut rows_before = 0usize;
             let script = (0..npages)
                 .map(|p| {
                     let rows: Vec<u32> = (0..r.range(1, 3)).map(|_| { next += 1; next }).collect();
+                    if p < kd {
+                        rows_before += rows.len();
+                    }
                     let st = if p + 1 == npages { None } else { Some(gen_state(r)) };
                     let mut fs = vec![];
                     if p == kd {
@@ -920,7 +945,9 @@ fn forced_early_timeout_cases(r: &mut Rng, n: usize) -> Vec<Case> {
                     (fs, Resp::Rows(rows, st))
                 })
                 .collect();
-            Case { kind: 'E', mode, api: if mode == 'c' || r.bool() { 'e' } else { 'q' }, cons: Cons::Full, nodes: 2, policy: if mode == 'c' { "f".into() } else { "x".into() }, script }
+            // take the rows before the struck page and the error (and sometimes the end as well)
+            let cons = if dropping { Cons::Drop(rows_before + 1 + r.below(2) as usize) } else { Cons::Full };
+            Case { kind: 'E', mode, api: if mode == 'c' || r.bool() { 'e' } else { 'q' }, cons, nodes: 2, policy: if mode == 'c' { "f".into() } else { "x".into() }, script }
         })
         .collect()
 }
@@ -1020,19 +1047,26 @@ fn single_cases(r: &mut Rng, n: usize) -> Vec<Case> {
                     fs.push(Fault::Err(*r.pick(&[0x1002u32, 0x1000, 0x0000]), 'n'));
                 }
             }
-            match r.below(6) {
+            match r.below(7) {
                 0 => fs.push(Fault::Err(*r.pick(&[0x2200u32, 0x2000, 0x1001]), 'd')),
                 1 => {
                     for _ in 0..nodes {
                         fs.push(Fault::Err(0x1002, 'n'));
                     }
                 }
+                2 if i % 2 == 0 => fs.push(Fault::Err(0x1100, 'i')),
                 _ => {}
             }
             let base = 0xd000u32 + (i as u32) * 16;
             let rows: Vec<u32> = (0..r.below(5)).map(|k| base + k as u32).collect();
             let next = if r.bool() { Some(gen_state(r)) } else { None };
-            Case { kind: 'P', mode: 's', api: if r.bool() { 'q' } else { 'e' }, cons: Cons::Single(st), nodes, policy: "x".into(), script: vec![(fs, Resp::Rows(rows, next))] }
+            // every tenth case answers with RESULT/Void, every tenth with a non-RESULT frame
+            let resp = match i % 10 {
+                4 => Resp::Void,
+                9 => Resp::NonResult,
+                _ => Resp::Rows(rows, next),
+            };
+            Case { kind: 'P', mode: 's', api: if r.bool() { 'q' } else { 'e' }, cons: Cons::Single(st), nodes, policy: "x".into(), script: vec![(fs, resp)] }
         })
         .collect()
 }
@@ -1078,8 +1112,8 @@ fn main() {
         cases.extend(slow_error_cases(&mut r, if thorough { 80 } else { 16 }));
         cases.extend(unprepared_cases(&mut r, if thorough { 80 } else { 16 }));
         cases.extend(single_cases(&mut r, if thorough { 200 } else { 30 }));
-        cases.extend(timeout_cases(&mut r, if thorough { 12 } else { 4 }));
-        cases.extend(forced_early_timeout_cases(&mut r, if thorough { 6 } else { 2 }));
+        cases.extend(timeout_cases(&mut r, if thorough { 16 } else { 8 }));
+        cases.extend(forced_early_timeout_cases(&mut r, if thorough { 18 } else { 9 }));
     }
     let all_lines: Vec<String> = cases.iter().map(|c| c.line()).collect();
     let rt = tokio::runtime::Builder::new_multi_thread().worker_threads(6).enable_all().build().expect("runtime");
